@@ -80,8 +80,16 @@ def do_replay(args) -> int:
     want = payload.get("violation", {}).get("signature")
     if v:
         same = (v.get("signature") == want) if want else True
+        info = {"reproduced_same_signature": same}
+        if payload.get("event_digest") and v.get("event_digest"):
+            # E1: digest of the complete context-switch trace of the replayed execution
+            info["same_event_digest"] = payload["event_digest"] == v["event_digest"]
+        if isinstance(payload.get("violation"), dict) and "detail" in payload["violation"]:
+            info["same_detail"] = json.dumps(payload["violation"]["detail"], sort_keys=True, default=repr) == \
+                json.dumps(v.get("detail"), sort_keys=True, default=repr)
+        info["violation"] = v
         print(f"VIOLATION property={v.get('property', args.prop)} replay={os.path.abspath(args.replay)}")
-        print(json.dumps({"reproduced_same_signature": same, "violation": v}, indent=1, default=repr)[:6000])
+        print(json.dumps(info, indent=1, default=repr)[:6000])
         return core.EXIT_VIOLATION
     print(f"NOT-REPRODUCED property={args.prop} replay={args.replay}")
     return core.EXIT_OK
